@@ -402,9 +402,14 @@ def _mentions_in(sp):
 # scheduler
 # ----------------------------------------------------------------------------------------------
 def gen_run(r, w, steps, emit):
+    import os
+
     cfg = dict(CFG)
+    deep = os.environ.get("RSIM_TIER") == "thorough"
+    if deep:
+        cfg.update({"Nmax": 5, "Mmax": 3, "degmax": 3, "nx_max": 3, "nu_max": 2, "np_max": 2, "nv_max": 2, "vector_states": True})
     swarm = {"time_in_template": r.random() < 0.5, "n_templates": r.choice([0, 1, 1, 2]), "n_direct": r.choice([0, 1, 1, 2]),
-             "n_clones": r.choice([1, 1, 2, 3]), "nsteps": r.randint(2, 10), "p_fault": r.choice([0, 0.2]),
+             "n_clones": r.choice([1, 1, 2, 3]), "nsteps": r.randint(2, 24 if deep else 10), "p_fault": r.choice([0, 0.2]),
              "parent_var": r.random() < 0.5}
     emit({"op": "new_ocp"})
     if swarm["parent_var"]:
